@@ -648,6 +648,16 @@ func TestCorr(t *testing.T) {
 			}
 		}
 		n := emit.U64(run.Rng)
+		if i%5 == 0 {
+			// the 64-bit boundary itself: floor(d*n) = 2^64-1 with a fractional part (ceiling = 2^64), or just below / above it
+			n = 1 + run.Rng.Uint64()>>uint(6+run.Rng.Intn(50))
+			num := new(big.Int).Mul(new(big.Int).SetUint64(^uint64(0)), prec)
+			num.Add(num, new(big.Int).Div(prec, big.NewInt(int64(2+run.Rng.Intn(3)))))
+			if run.Rng.Intn(4) == 0 {
+				num.Sub(num, prec)
+			}
+			raw = new(big.Int).Div(num, new(big.Int).SetUint64(n)).String()
+		}
 		d := decOf(raw)
 		var got uint64
 		out, what := guard(func() error {
